@@ -56,7 +56,10 @@ def sym(E, p, kf):
         m = E.concretize(E.int("m", 1, p["m"]))
         c["idx"] = [E.int(f"i{j}", 0, n - 1) for j in range(m)]
     elif op == "window":
-        c["w"] = E.choose("w", list(range(1, min(k, n) + 1)))
+        ws = list(range(1, min(k, n) + 1))
+        if k > 16:        # 32 or 64 entries per register: window sizes around the ends and the middle
+            ws = sorted(set(w for w in (1, 2, 3, k // 2, k - 1, k) if w <= min(k, n)))
+        c["w"] = E.choose("w", ws)
     elif op == "window2":
         c["w0"] = E.choose("w0", list(range(1, min(k, n) + 1)))
         c["w"] = E.choose("w", list(range(1, min(k, n) + 1)))
